@@ -476,7 +476,7 @@ func vfC36PartE(t *testing.T, r *vfRand, n int) {
 func vfC36EGenSniffBody(r *vfRand, sigs []vfC36RSig) []byte {
 	ws := []string{"", "", " ", "\n", "\t\r\n ", "\x0c", "\x0b", "\x00"}
 	switch r.Intn(10) {
-	case 0, 1, 2, 3: // a signature, possibly damaged
+	case 0, 1, 2, 3, 8: // a signature, possibly damaged
 		s := sigs[r.Intn(len(sigs))]
 		var b []byte
 		b = append(b, r.Pick(ws)...)
@@ -499,7 +499,7 @@ func vfC36EGenSniffBody(r *vfRand, sigs []vfC36RSig) []byte {
 		default:
 			b = append(b, "plain text"...)
 		}
-		if r.Chance(25) && len(b) > 1 { // damage one byte or truncate
+		if r.Chance(12) && len(b) > 1 { // damage one byte or truncate
 			if r.Bool() {
 				b[r.Intn(len(b))] ^= byte(1 << r.Intn(8))
 			} else {
